@@ -304,6 +304,11 @@ func SwitchCiphertextRingDegree(ctIn, opOut *Element[ring.Poly]) {
 			tmp0, tmp1 := opOut.Value[i].Coeffs[j], ctIn.Value[i].Coeffs[j]
 			for w0, w1 := 0, 0; w0 < NOut; w0, w1 = w0+gapIn, w1+gapOut {
 				tmp0[w0] = tmp1[w1]
+				// small -> large ring: Y = X^{gap}, the coefficients in between are zero
+				// (the receiver may hold older data).
+				for w := w0 + 1; w < w0+gapIn && w < NOut; w++ {
+					tmp0[w] = 0
+				}
 			}
 		}
 	}
